@@ -188,6 +188,30 @@ def run(prog: Program, res: Result) -> None:  # noqa: PLR0912, PLR0915
                 if not (fi is not None and fi.cls is not None and fi.cls.name == "ExtendsNode"):
                     res.fail("C08.R3", file=m_.relpath, line=n.lineno, qualname=fi.qualname if fi else "", construct=n, message="StopRender raised outside ExtendsNode", what="StopRender only from extends")
 
+    # ------------------------------------------------------------------ R6 the walker sees every node
+    res.rule("C08.R6", "_find_inheritance_nodes visits every node of the template: the recursion over node.children(context, include_partials=False) and the loop over template.nodes are unconditional, and block/extends nodes are recorded before descending")
+    fin = prog.fn(EXT, "_find_inheritance_nodes")
+    vis = prog.fn(EXT, "_find_inheritance_nodes.<locals>._visit_node")
+    rec = [f for f in vis.node.body if isinstance(f, ast.For) and "node.children(context, include_partials=False)" in norm(f.iter) and any(isinstance(c, ast.Call) and isinstance(c.func, ast.Name) and c.func.id == "_visit_node" for c in ast.walk(f))]
+    what = "_visit_node recurses into node.children(...) of every node, unconditionally"
+    if len(rec) == 1 and not any(isinstance(x, (ast.Return, ast.Continue, ast.Break)) for x in ast.walk(vis.node)):
+        res.ok("C08.R6", f"{EXT}:{rec[0].lineno} {vis.qualname}", what, "top-level for over node.children(context, include_partials=False)")
+    else:
+        res.fail("C08.R6", file=EXT, line=vis.node.lineno, qualname=vis.qualname, construct="recursion over children is conditional or missing", message="the inheritance-node walker does not descend into every node's children: a block/extends nested in an ordinary tag (for/if/case) is never stacked, so block.super, duplicate-block and second-extends detection silently miss it", what=what)
+    top = [f for f in fin.node.body if isinstance(f, ast.For) and norm(f.iter) == "template.nodes"]
+    what = "_find_inheritance_nodes starts the walk from every top-level node"
+    if len(top) == 1 and any(isinstance(c, ast.Call) and isinstance(c.func, ast.Name) and c.func.id == "_visit_node" for c in ast.walk(top[0])):
+        res.ok("C08.R6", f"{EXT}:{top[0].lineno} _find_inheritance_nodes", what, "for node in template.nodes: _visit_node(node, …)")
+    else:
+        res.fail("C08.R6", file=EXT, line=fin.node.lineno, qualname="_find_inheritance_nodes", construct="top-level walk", message="the walk does not start from every top-level node of the template", what=what)
+    for cls_name, lst in (("BlockNode", "block_nodes"), ("ExtendsNode", "extends_nodes")):
+        what = f"every {cls_name} met by the walker is recorded"
+        hit = [i for i in vis.node.body if isinstance(i, ast.If) and norm(i.test) == f"isinstance(node, {cls_name})" and any(norm(b) == f"{lst}.append(node)" for b in i.body)]
+        if hit:
+            res.ok("C08.R6", f"{EXT}:{hit[0].lineno} {vis.qualname}", what, f"{lst}.append(node)")
+        else:
+            res.fail("C08.R6", file=EXT, line=vis.node.lineno, qualname=vis.qualname, construct=f"{cls_name} not recorded unconditionally", message=f"{cls_name} nodes are not all collected by the walker", what=what)
+
     # ------------------------------------------------------------------ R4 twins
     res.rule("C08.R4", "sync and async twins of the inheritance machinery agree modulo await")
     for fs, fa in twins.find_pairs(prog):
